@@ -38,6 +38,93 @@ Proof.
   unfold Ast.name_eqb. destruct (bytes_eqb x k); simpl; auto.
 Qed.
 
+(** ** C04's loop over the fields of an object literal, as four independent conditions *)
+Fixpoint dups (seen : list name) (ns : list name) : bool :=
+  match ns with
+  | [] => false
+  | n :: r => Ast.mem n seen || dups (n :: seen) r
+  end.
+
+Lemma existsb_eqb_sym n (r : list name) : existsb (fun x => Ast.name_eqb x n) r = existsb (bytes_eqb n) r.
+Proof. induction r as [|y r IH]; simpl; [reflexivity|]. rewrite IH. unfold Ast.name_eqb. rewrite (bytes_eqb_sym y n). reflexivity. Qed.
+
+Lemma dups_spec : forall ns seen, dups seen ns = existsb (fun n => Ast.mem n seen) ns || has_dup ns.
+Proof.
+  induction ns as [|n r IH]; intro seen; [reflexivity|].
+  cbn [dups existsb has_dup]. rewrite IH.
+  assert (X : existsb (fun x => Ast.mem x (n :: seen)) r = existsb (bytes_eqb n) r || existsb (fun x => Ast.mem x seen) r).
+  { rewrite <- existsb_eqb_sym. clear IH. induction r as [|y r IHr]; [reflexivity|]. cbn [existsb]. rewrite IHr.
+    change (Ast.mem y (n :: seen)) with (Ast.name_eqb y n || Ast.mem y seen).
+    destruct (Ast.name_eqb y n), (Ast.mem y seen), (existsb (fun x => Ast.name_eqb x n) r), (existsb (fun x => Ast.mem x seen) r); reflexivity. }
+  rewrite X.
+  destruct (Ast.mem n seen), (existsb (bytes_eqb n) r), (existsb (fun x => Ast.mem x seen) r), (has_dup r); reflexivity.
+Qed.
+
+Lemma dups_nil ns : dups [] ns = has_dup ns.
+Proof.
+  rewrite dups_spec.
+  match goal with |- ?a || _ = _ => assert (X : a = false) by (induction ns; simpl; auto); rewrite X end. reflexivity.
+Qed.
+
+Definition nil_b {A} (l : list A) : bool := match l with [] => true | _ => false end.
+Lemma nil_b_app {A} (a b : list A) : nil_b (a ++ b) = nil_b a && nil_b b.
+Proof. destruct a; reflexivity. Qed.
+
+Definition okr (r : ValidatorModel.vres) : bool := match r with ValidatorModel.VR [] => true | _ => false end.
+Lemma okr_VR l : okr (ValidatorModel.VR l) = nil_b l.
+Proof. destruct l; reflexivity. Qed.
+
+Definition fname3 (x : Ast.name * Ast.pos * Ast.value) : name := fst (fst x).
+
+Lemma fields_loop_ok rec defs p : forall fs seen acc,
+  okr (ValidatorModel.fields_loop ValidatorModel.id_order rec defs p fs seen acc) =
+  nil_b acc
+  && negb (dups seen (map fname3 fs))
+  && forallb (fun x : Ast.name * Ast.pos * Ast.value =>
+                match Ast.assoc (fname3 x) defs with
+                | Some def => okr (rec (snd x) (Ast.in_type def) true)
+                | None => false
+                end) fs
+  && forallb (fun nd : Ast.name * Ast.input_def =>
+                negb (ValidatorModel.required_arg (snd nd)) || Ast.mem (fst nd) (rev (map fname3 fs) ++ seen)) defs.
+Proof.
+  induction fs as [|[[n np] x] r IH]; intros seen acc.
+  - cbn [ValidatorModel.fields_loop map dups forallb rev app negb]. rewrite okr_VR, nil_b_app.
+    unfold ValidatorModel.id_order. rewrite !andb_true_r. f_equal.
+    induction defs as [|nd ds IHd]; [reflexivity|]. cbn [flat_map forallb]. rewrite nil_b_app, IHd.
+    destruct (ValidatorModel.required_arg (snd nd)), (Ast.mem (fst nd) seen); reflexivity.
+  - cbn [ValidatorModel.fields_loop map dups forallb rev]. change (fname3 (n, np, x)) with n. change (snd (n, np, x)) with x.
+    match goal with |- context [(?a ++ ?b) ++ seen] => rewrite <- (app_assoc a b seen); change (b ++ seen) with (n :: seen) end.
+    destruct (Ast.assoc n defs) as [def|]; [destruct (rec x (Ast.in_type def) true) as [[|e es]|]; cbn [okr]|];
+      try rewrite IH;
+      destruct (Ast.mem n seen); rewrite ?nil_b_app; cbn [nil_b orb negb andb];
+      repeat (cbn [andb orb negb nil_b]; rewrite ?andb_false_r); try reflexivity;
+      destruct (nil_b acc); reflexivity.
+Qed.
+
+Lemma assoc_tr_fields fields n :
+  Ast.assoc n (map (fun f : name * in_def => (fst f, tr_indef (snd f))) fields) = option_map tr_indef (aget n fields).
+Proof.
+  induction fields as [|[k d] r IH]; simpl; [reflexivity|].
+  unfold Ast.name_eqb. destruct (bytes_eqb n k); [reflexivity|exact IH].
+Qed.
+
+Lemma mem_names_ahas {A} x (fs : list (name * A)) : Ast.mem x (rev (map fst fs) ++ []) = ahas x fs.
+Proof.
+  rewrite app_nil_r. unfold Ast.mem, ahas.
+  assert (R : forall l, existsb (Ast.name_eqb x) (rev l) = existsb (Ast.name_eqb x) l).
+  { induction l as [|y l IH]; simpl; [reflexivity|]. rewrite existsb_app, IH. simpl. rewrite orb_false_r. apply orb_comm. }
+  rewrite R. induction fs as [|[k v] r IH]; simpl; [reflexivity|].
+  unfold Ast.name_eqb in *. destruct (bytes_eqb x k); simpl; auto.
+Qed.
+
+Lemma required_arg_tr d :
+  ValidatorModel.required_arg (tr_indef d) = is_nonnull (in_type d) && match in_default d with None => true | Some _ => false end.
+Proof.
+  unfold ValidatorModel.required_arg, tr_indef. cbn [Ast.in_type Ast.in_default]. rewrite is_nonnull_tr.
+  destruct (in_default d) as [g|]; [destruct g|]; reflexivity.
+Qed.
+
 Section Bridge.
   Variable E : env.
   Variable dt : bytes -> option bytes.
@@ -84,9 +171,38 @@ Section Bridge.
         destruct a; [apply (IHt true)|reflexivity]
       | rewrite vc_eq; cbn [tr_lit tr_sty ValidatorModel.coercion Ast.is_var Ast.is_null]; apply IHt ].
 
-  Theorem bridge_obj_free : forall l, obj_free l = true -> agrees_at l.
+  Lemma scalar_literal_object k fs : scalar_literal dt k (LObject fs) = None.
+  Proof. destruct k; reflexivity. Qed.
+
+  Lemma map_fname3 (fs : list (name * lit)) :
+    map fname3 (map (fun p : name * lit => (fst p, p0, tr_lit (snd p))) fs) = map fst fs.
+  Proof. rewrite map_map. apply map_ext. intros [k x]; reflexivity. Qed.
+
+  (** an object literal at a named type: C04's fields_loop against C05's three conjuncts *)
+  Lemma object_agrees fs n a :
+    Forall (fun p : name * lit => agrees_at (snd p)) fs ->
+    ok (c04 (tr_lit (LObject fs)) (Ast.StNamed n) a) = validate_coercion E dt (LObject fs) (StNamed n) a.
   Proof.
-    induction l as [v|z|m k|s|b| |en|vs IHl|fs IHf] using lit_ind'; intros OF.
+    intros IHf. rewrite vc_eq.
+    cbn [tr_lit ValidatorModel.coercion Ast.is_var Ast.is_null].
+    rewrite raw_body_tr. destruct (aget n E) as [[k|vals|fields h]|] eqn:Hn; cbn [option_map tr_tdef].
+    - pose proof (HL n k (LObject fs) Hn ltac:(intros; discriminate) ltac:(discriminate)) as X.
+      cbn [tr_lit] in X. rewrite X, scalar_literal_object. reflexivity.
+    - reflexivity.
+    - change (ok ?x) with (okr x). rewrite fields_loop_ok. cbn [nil_b andb].
+      rewrite map_fname3, dups_nil.
+      f_equal; [f_equal|].
+      + rewrite forallb_map_eq. apply forallb_ext_in. intros [k x] Hx. cbn [fname3 fst snd].
+        rewrite assoc_tr_fields. destruct (aget k fields) as [fd|]; cbn [option_map]; [|reflexivity].
+        rewrite Forall_forall in IHf. apply (IHf (k, x) Hx (in_type fd) true).
+      + rewrite forallb_map_eq. apply forallb_ext_in. intros [k fd] Hk. cbn [fst snd].
+        rewrite required_arg_tr, mem_names_ahas. reflexivity.
+    - destruct (ValidatorModel.q_noninput ValidatorModel.repaired); reflexivity.
+  Qed.
+
+  Theorem bridge_all : forall l, agrees_at l.
+  Proof.
+    induction l as [v|z|m k|s|b| |en|vs IHl|fs IHf] using lit_ind'.
     - intros t a. rewrite vc_eq. destruct t; reflexivity.
     - atom_case.
     - atom_case.
@@ -100,11 +216,18 @@ Section Bridge.
       + apply named_agrees; intros; discriminate.
       + rewrite vc_eq. cbn [tr_lit tr_sty ValidatorModel.coercion Ast.is_var Ast.is_null].
         rewrite items_loop_ok. rewrite forallb_map_eq. apply forallb_ext_in.
-        intros x Hx. rewrite Forall_forall in IHl. cbn [obj_free] in OF. rewrite forallb_forall in OF.
-        apply (IHl x Hx (OF x Hx)).
+        intros x Hx. rewrite Forall_forall in IHl. apply (IHl x Hx).
       + rewrite vc_eq. cbn [tr_lit tr_sty ValidatorModel.coercion Ast.is_var Ast.is_null]. apply (IHt a).
-    - discriminate.
+    - (* an object *)
+      intros t; induction t as [n|t' IHt|t' IHt]; intros a.
+      + apply object_agrees; exact IHf.
+      + rewrite vc_eq. cbn [tr_sty ValidatorModel.coercion]. cbn [tr_lit Ast.is_var Ast.is_null].
+        destruct a; [apply (IHt true)|reflexivity].
+      + rewrite vc_eq. cbn [tr_sty ValidatorModel.coercion]. cbn [tr_lit Ast.is_var Ast.is_null]. apply IHt.
   Qed.
+
+  Corollary bridge_obj_free : forall l, obj_free l = true -> agrees_at l.
+  Proof. intros l _. apply bridge_all. Qed.
 End Bridge.
 
 (** [leaves_agree] holds outright when no scalar of the environment reads numbers (String, Boolean,
@@ -127,5 +250,50 @@ Corollary bridge_obj_free_non_numeric E dt l : non_numeric E = true -> obj_free 
   forall t a, c04_accepts E l t a = validate_coercion E dt l t a.
 Proof.
   intros HN OF t a. pose proof (bridge_obj_free E dt (leaves_agree_non_numeric E dt HN) l OF t a) as B.
+  unfold c04_accepts. unfold ok in B. exact B.
+Qed.
+
+(** ** the scalar leaves.  Int and ID: C04 reads the decimal text back ([DecimalText.int_lit_dec]).
+    Float is the one leaf left as a hypothesis ([float_leaves_agree]: C04's ParseFloat range test
+    [Literals.float_lit_ok] on the text m"e"k against C05's rounding [f64_of_decimal m k <> None]). *)
+From ApiFu Require Import Val.DecimalText.
+From ApiFu Require Vld.Literals.
+
+Definition float_leaves_agree (dt : bytes -> option bytes) : Prop :=
+  forall l, (forall v, l <> LVar v) -> l <> LNull ->
+    ValidatorModel.scalar_accepts Ast.SFloat (tr_lit l) = match scalar_literal dt KFloat l with Some _ => true | None => false end.
+
+Definition no_float (E : env) : bool :=
+  forallb (fun p : name * tdef => match snd p with TScalar KFloat => false | _ => true end) E.
+
+Lemma int32_dec z : Literals.int32_lit_ok (dec_of_Z z) = int32_ok z.
+Proof. unfold Literals.int32_lit_ok. rewrite int_lit_dec. reflexivity. Qed.
+Lemma int64_dec z : Literals.int64_lit_ok (dec_of_Z z) = int64_ok z.
+Proof. unfold Literals.int64_lit_ok. rewrite int_lit_dec. reflexivity. Qed.
+
+Lemma leaves_agree_bridgeable E dt : bridgeable E = true ->
+  (no_float E = true \/ float_leaves_agree dt) -> leaves_agree E dt.
+Proof.
+  intros HB HF n k l Hn NV NN. unfold bridgeable in HB. rewrite forallb_forall in HB.
+  pose proof (aget_In _ _ _ Hn) as Hin. pose proof (HB _ Hin) as B. simpl in B.
+  destruct k; try discriminate.
+  - (* Int *) destruct l; try reflexivity; try (exfalso; (apply NN; reflexivity) || (eapply NV; reflexivity)).
+    cbn [tr_lit tr_scalar ValidatorModel.scalar_accepts scalar_literal]. rewrite int32_dec. destruct (int32_ok z); reflexivity.
+  - (* Float *) destruct HF as [HF|HF].
+    + unfold no_float in HF. rewrite forallb_forall in HF. specialize (HF _ Hin). discriminate.
+    + apply HF; auto.
+  - destruct l; try reflexivity; exfalso; (apply NN; reflexivity) || (eapply NV; reflexivity).
+  - destruct l; try reflexivity; exfalso; (apply NN; reflexivity) || (eapply NV; reflexivity).
+  - (* ID *) destruct l; try reflexivity; try (exfalso; (apply NN; reflexivity) || (eapply NV; reflexivity)).
+    cbn [tr_lit tr_scalar ValidatorModel.scalar_accepts scalar_literal]. rewrite int64_dec. destruct (int64_ok z); reflexivity.
+  - destruct l; try reflexivity; exfalso; (apply NN; reflexivity) || (eapply NV; reflexivity).
+Qed.
+
+(** the bridge without [leaves_agree]: every literal (objects included), every type, every
+    bridgeable environment; Float is the only leaf still carried as a hypothesis *)
+Theorem bridge_bridgeable E dt : bridgeable E = true -> (no_float E = true \/ float_leaves_agree dt) ->
+  forall l t a, c04_accepts E l t a = validate_coercion E dt l t a.
+Proof.
+  intros HB HF l t a. pose proof (bridge_all E dt (leaves_agree_bridgeable E dt HB HF) l t a) as B.
   unfold c04_accepts. unfold ok in B. exact B.
 Qed.
